@@ -348,7 +348,7 @@ func (s c11Scenario) detectBound() time.Duration {
 	switch s.Beh.Kind {
 	case "stallSelect":
 		return c11T6
-	case "noSelect", "selectStatus1Hold":
+	case "noSelect", "selectStatus1Hold", "deselectHold":
 		return c11T7
 	case "stallMidFrame":
 		return c11T8 + c11T6
@@ -388,7 +388,7 @@ func c11Scenarios(c *Ctx) []c11Scenario {
 			add(role, lifeBehaviour{Kind: "cut", Cut: lifeCut{"data", "toLib", off}})
 		}
 		// timer-covered stalls and rejection
-		kinds := []string{"stallMidFrame", "stallLinktest", "stallRead", "stallReadShortCtx"}
+		kinds := []string{"stallMidFrame", "stallLinktest", "stallRead", "stallReadShortCtx", "deselectHold"}
 		if role == "active" {
 			kinds = append(kinds, "stallSelect", "rejectSelect", "selectStatus1Hold")
 		} else {
@@ -720,6 +720,9 @@ func c11ModelScript(s c11Scenario) (string, int) {
 			add("envDown")
 		case s.Beh.Kind == "noSelect":
 			add("envAccept", "envT7")
+		case s.Beh.Kind == "deselectHold":
+			up()
+			add("envSelectLost", "envT7")
 		case s.Beh.Kind == "selectStatus1Hold":
 			add("envT7")
 		default: // select-phase failures: NotSelected
